@@ -12,7 +12,7 @@ pub struct TcpHeader {
     sequence: u32,    // Sequence number
     ack: u32,         // Acknowledgment number
     data_off: u8,     // Data offset
-    flags: u16,       // Flags for TCP
+    flags: u16,       // Data offset (4 bits), reserved bits (4) and the control bits (8)
     window_size: u16, // Window size
     checksum: u16,    // Checksum for integrity
     urgent: u16,      // Urgent pointer
@@ -37,7 +37,8 @@ impl From<&TcpHeader> for Vec<u8> {
 pub struct Tcp {
     header: RefCell<TcpHeader>,             // Header of the TCP packet
     pub rawdata: RefCell<Rc<Vec<u8>>>,      // Raw data of the entire packet
-    pub offset: usize,                      // Offset of the TCP header
+    pub start: usize,                       // Offset of the TCP header
+    pub offset: usize,                      // Offset of the TCP payload
     pub inner: RefCell<Option<Rc<Object>>>, // Inner packet
 }
 
@@ -60,8 +61,9 @@ impl From<&Tcp> for Vec<u8> {
     fn from(tcp: &Tcp) -> Self {
         let header = tcp.header.borrow().clone();
         let mut bytes: Vec<u8> = (&header).into();
+        // the options are not parsed: copy them, and the payload, from the captured bytes
         let data = tcp.rawdata.borrow().clone();
-        bytes.extend_from_slice(&data[tcp.offset..]);
+        bytes.extend_from_slice(&data[tcp.start + TCP_HEADER_SIZE..]);
         bytes
     }
 }
@@ -86,6 +88,12 @@ impl Tcp {
             rawdata[off + 11],
         ]);
         let data_off = rawdata[off + 12] >> 4;
+        // The header, options included, must be inside the captured bytes.
+        // A data offset below the minimum is taken as the minimum.
+        let header_len = std::cmp::max(data_off as usize * 4, TCP_HEADER_SIZE);
+        if rawdata.len() < off + header_len {
+            return Err(PacketError::InvalidLength(rawdata.len()));
+        }
         let flags = u16::from_be_bytes([rawdata[off + 12], rawdata[off + 13]]);
         let window_size = u16::from_be_bytes([rawdata[off + 14], rawdata[off + 15]]);
         let checksum = u16::from_be_bytes([rawdata[off + 16], rawdata[off + 17]]);
@@ -106,7 +114,8 @@ impl Tcp {
         Ok(Self {
             header,
             rawdata: RefCell::new(rawdata),
-            offset: off + TCP_HEADER_SIZE,
+            start: off,
+            offset: off + header_len,
             inner: RefCell::new(None),
         })
     }
@@ -132,7 +141,8 @@ impl Tcp {
     }
 
     pub fn get_flags(&self) -> Rc<Object> {
-        Rc::new(Object::Integer(self.header.borrow().flags as i64))
+        // the eight control bits (CWR ECE URG ACK PSH RST SYN FIN)
+        Rc::new(Object::Integer((self.header.borrow().flags & 0x00FF) as i64))
     }
 
     pub fn get_window_size(&self) -> Rc<Object> {
@@ -190,7 +200,10 @@ impl Tcp {
     pub fn set_data_off(&self, data_off: Rc<Object>) -> Result<(), String> {
         match data_off.as_ref() {
             Object::Integer(data_off_value) => {
-                self.header.borrow_mut().data_off = *data_off_value as u8;
+                // the data offset lives in the top four bits of the flags word
+                let mut header = self.header.borrow_mut();
+                header.data_off = (*data_off_value as u8) & 0x0F;
+                header.flags = (header.flags & 0x0FFF) | ((header.data_off as u16) << 12);
                 Ok(())
             }
             _ => Err("Invalid value for data offset".to_string()),
@@ -200,7 +213,9 @@ impl Tcp {
     pub fn set_flags(&self, flags: Rc<Object>) -> Result<(), String> {
         match flags.as_ref() {
             Object::Integer(flags_value) => {
-                self.header.borrow_mut().flags = *flags_value as u16;
+                // only the control bits: keep the data offset and the reserved bits
+                let mut header = self.header.borrow_mut();
+                header.flags = (header.flags & 0xFF00) | (*flags_value as u16 & 0x00FF);
                 Ok(())
             }
             _ => Err("Invalid value for flags".to_string()),
